@@ -1,7 +1,7 @@
 //! driver/streams/settings.rs (re-hosted): RemoteSettingsStream::run (C12: first frame must be SETTINGS, later only
 //! GREASE; closed critical stream), LocalSettingsStream::{empty,send_settings,run} (C16: exactly the advertised SETTINGS)
 use super::*;
-use crate::driver::streams::models::{Ev, Script, PAYLOAD_MAX};
+use crate::driver::streams::models::{CEv, ControlScript};
 use crate::driver::streams::settings::{LocalSettingsStream, RemoteSettingsStream};
 use crate::driver::streams::unilocal::{StreamUniLocalH3, WriteLog};
 use crate::driver::streams::uniremote::StreamUniRemoteH3;
@@ -13,28 +13,19 @@ use wtransport_proto::vh::util::{ref_setting_class, ref_varint_get, IdClass};
 /// alphabet of control-stream events: 0 SETTINGS (valid, 1 pair 0x33=1) 1 SETTINGS (empty) 2 SETTINGS with a reserved
 /// id (0x02) 3 GREASE frame 4 DATA 5 HEADERS 6 clean FIN 7 FIN inside a frame 8 reset 9 connection lost
 /// 10 H3_FRAME_UNEXPECTED from the typestate reader
-fn ev(sel: u8) -> Ev {
-    let mut bytes = [0u8; PAYLOAD_MAX];
+fn ev(sel: u8) -> CEv {
     match sel {
-        0 => {
-            bytes[0] = 0x33;
-            bytes[1] = 0x01;
-            Ev::Frame { kind: 2, bytes, len: 2 }
-        }
-        1 => Ev::Frame { kind: 2, bytes, len: 0 },
-        2 => {
-            bytes[0] = 0x02;
-            bytes[1] = 0x00;
-            Ev::Frame { kind: 2, bytes, len: 2 }
-        }
-        3 => Ev::Frame { kind: 3, bytes, len: 0 },
-        4 => Ev::Frame { kind: 0, bytes, len: 0 },
-        5 => Ev::Frame { kind: 1, bytes, len: 0 },
-        6 => Ev::ImmediateFin,
-        7 => Ev::UnexpectedFin,
-        8 => Ev::Reset,
-        9 => Ev::NotConnected,
-        _ => Ev::H3(ErrorCode::FrameUnexpected),
+        0 => CEv::SettingsOk,
+        1 => CEv::SettingsEmpty,
+        2 => CEv::SettingsReserved,
+        3 => CEv::Grease,
+        4 => CEv::Data,
+        5 => CEv::Headers,
+        6 => CEv::ImmediateFin,
+        7 => CEv::UnexpectedFin,
+        8 => CEv::Reset,
+        9 => CEv::NotConnected,
+        _ => CEv::H3FrameUnexpected,
     }
 }
 
@@ -61,9 +52,9 @@ fn reference(sel: u8, settings_seen: bool) -> Option<Result<u64, ()>> {
     }
 }
 
-fn remote_run(events: [Ev; 3], sels: [u8; 3], n: usize) {
+fn remote_run(events: [CEv; 3], sels: [u8; 3], n: usize) {
     let mut rs = RemoteSettingsStream::empty();
-    rs.set_stream(StreamUniRemoteH3::control(Script { events, n, reads: 0 }));
+    rs.set_stream(StreamUniRemoteH3::control(ControlScript { events, n, reads: 0 }));
     let out = poll_once(rs.run()).expect("run() pending although the scripted stream never is");
     // reference run
     let mut seen = false;
@@ -105,7 +96,7 @@ fn remote_run(events: [Ev; 3], sels: [u8; 3], n: usize) {
 // @oracle RFC 9114 §6.2.1/§7.2.4: first frame not SETTINGS (incl. GREASE first) => H3_MISSING_SETTINGS; malformed SETTINGS => its code; FIN/reset => H3_CLOSED_CRITICAL_STREAM; connection lost => NotConnected; valid SETTINGS accepted
 // @assume scripted StreamUniRemoteH3 model; tokio::sync::watch model (shared cell); mproto mirror as wtransport-proto
 #[kani::proof]
-#[kani::unwind(8)]
+#[kani::unwind(4)]
 fn d_remote_settings_first() {
     let s0: u8 = kani::any();
     kani::assume(s0 < 11);
@@ -119,7 +110,7 @@ fn d_remote_settings_first() {
 // @assume as d_remote_settings_first
 // @outside what Worker::run_impl does with the returned error besides closing with its code (d_worker_close_code)
 #[kani::proof]
-#[kani::unwind(8)]
+#[kani::unwind(5)]
 fn d_remote_settings_after() {
     let s1: u8 = kani::any();
     let s2: u8 = kani::any();
@@ -203,10 +194,10 @@ fn d_local_settings() {
 // @fn wtransport/src/driver/streams/settings.rs RemoteSettingsStream::run
 // @bound twin: claims a leading DATA frame is tolerated; must be refuted
 #[kani::proof]
-#[kani::unwind(8)]
+#[kani::unwind(4)]
 fn d_settings_twin_must_fail() {
     let mut rs = RemoteSettingsStream::empty();
-    rs.set_stream(StreamUniRemoteH3::control(Script { events: [ev(4), ev(9), ev(9)], n: 2, reads: 0 }));
+    rs.set_stream(StreamUniRemoteH3::control(ControlScript { events: [ev(4), ev(9), ev(9)], n: 2, reads: 0 }));
     let out = poll_once(rs.run()).unwrap();
     assert!(matches!(out, DriverError::NotConnected), "twin: wrong oracle");
     core::mem::forget(out);
